@@ -626,9 +626,9 @@ func (p *context) funcOf(fn *ssa.Function) (aFn llssa.Function, pyFn llssa.PyObj
 		if kind, mod := pkgKindByScope(pkgTypes.Scope()); kind == PkgPyModule {
 			pkg := p.pkg
 			fnName := pysymPrefix + mod + "." + name
-			if pyFn = pkg.PyObjOf(fnName); pyFn == nil {
-				pyFn = pkg.PyNewFunc(fnName, fn.Signature, true)
-			}
+			// PyNewFunc shares the global of an already known Python object but
+			// types the reference with this declaration's signature.
+			pyFn = pkg.PyNewFunc(fnName, fn.Signature, true)
 			return
 		}
 		ftype = ignoredFunc
